@@ -72,6 +72,8 @@ func (o op) String() string {
 		return fmt.Sprintf("send(%s,ts%d,valid=%v)", o.Nonce, o.TS, o.Valid)
 	case "reload":
 		return fmt.Sprintf("reload(tolerance=%s)", o.Tol)
+	case "flood":
+		return fmt.Sprintf("flood(%d distinct nonces, valid signatures=%v)", floodN, o.Valid)
 	}
 	return "clock->next"
 }
@@ -301,6 +303,14 @@ func TestCheck(t *testing.T) {
 			r.Violation(v.Key, fmt.Sprintf("after %v, %s: %s", txt, v.Op, v.Message), map[string]any{"engine": "bfs", "history": v.Hist, "op": v.Op, "history_text": txt}, nil)
 		}
 	}
+	// ---- (1b) "no matter how many other requests happen in between": a flood of requests with distinct nonces (valid
+	// and bogus signatures alike - the nonce is recorded before the signature is checked) between the original and its
+	// replay, at every position of every short history. A bounded search cannot reach a capacity limit by single
+	// steps; the flood is one operation of 20 000 requests.
+	// Thorough tier only: the nonce cache sweeps all its entries on every call, so one flood costs about 40 CPU seconds.
+	if _, child := runner.IsShard(); !child && runner.ReplayPath() == "" && r.Thorough() {
+		floodPart(r, t, dir)
+	}
 	// ---- (2) schedules: the same signed request twice concurrently, with a reload in between -----------
 	for _, withReload := range []bool{false, true} {
 		name := fmt.Sprintf("concurrent-duplicates-reload%v", withReload)
@@ -362,4 +372,86 @@ func TestCheck(t *testing.T) {
 	r.Assume("reloads in the alphabet keep the route HMAC-protected (same secret), tolerance unchanged or doubled")
 	r.Set("rule", "(1) every history up to the depth over {valid/invalid/duplicate signed requests with 2 nonces and 2 signed timestamps, clock to the next of 12 positions around ts-tol, ts, ts+tol, ts+2tol, ts+3tol (+/- 1 ns), reload same / reload with doubled tolerance}, through the ingress handler wired by startServers with the real reloadConfig inside a virtual-time bubble, de-duplicated on the runtime state dump; (2) every interleaving of two identical signed requests and a reload; non-trivial = distinct (operation, status) pairs and distinct concurrent outcomes")
 	r.Finish()
+}
+
+const floodN = 20000
+
+// floodPart: histories  pre* ; send R ; mid* ; flood ; mid2* ; replay R  with pre/mid over {clock->next, reload(2T),
+// reload(T)} up to one step each; the replay must be refused while R's signed timestamp passes the tolerance in force.
+func floodPart(r *runner.Run, t *testing.T, dir string) {
+	steps := []op{{Kind: "none"}, {Kind: "clock"}, {Kind: "reload", Tol: 2 * tol}, {Kind: "reload", Tol: tol}}
+	// a flood costs seconds (the nonce cache sweeps all entries on every call): quick = flood directly / one clock step
+	// after the original; thorough = every pre x mid x mid2 combination
+	pres, mids, mid2s := steps[:2], steps, steps[:1]
+	n, vio := 0, 0
+	for _, pre := range pres {
+		for _, mid := range mids {
+			for _, mid2 := range mid2s {
+				for _, bogus := range []bool{false, true} {
+					var why string
+					hist := []op{pre, {Kind: "send", Nonce: "n1", TS: 0, Valid: true}, mid, {Kind: "flood", Valid: !bogus}, mid2}
+					synctest.Test(t, func(t *testing.T) {
+						w, err := boot(dir)
+						if err != nil {
+							why = "INFRA " + err.Error()
+							return
+						}
+						defer w.a.Shutdown()
+						gp := 0
+						// move to ts0 so that the original is inside the window
+						for grid[gp] < 0 {
+							w.apply(op{Kind: "clock"}, &gp)
+						}
+						curTol := tol
+						honoured := false
+						for _, h := range hist {
+							switch h.Kind {
+							case "none":
+							case "flood":
+								for i := 0; i < floodN; i++ {
+									rec := httptest.NewRecorder()
+									w.a.Ingress.ServeHTTP(rec, signed(fmt.Sprintf("f%d", i), w.tsOf(0), h.Valid))
+								}
+							case "send":
+								if w.apply(h, &gp) == 202 {
+									honoured = true
+								}
+							case "clock":
+								if gp+1 < len(grid) {
+									w.apply(h, &gp)
+								}
+							case "reload":
+								if w.apply(h, &gp) == 0 {
+									curTol = h.Tol
+								}
+							}
+						}
+						d := time.Now().Sub(time.Unix(w.tsOf(0), 0))
+						code := w.apply(op{Kind: "send", Nonce: "n1", TS: 0, Valid: true}, &gp)
+						if honoured && code == 202 && d >= -curTol && d <= curTol {
+							why = fmt.Sprintf("replay accepted after a flood of %d requests with other nonces (tolerance in force %s, age %s)", floodN, curTol, d)
+						}
+					})
+					n++
+					if strings.HasPrefix(why, "INFRA") {
+						r.Infra("%s", why)
+						return
+					}
+					if why != "" {
+						vio++
+						var txt []string
+						for _, h := range hist {
+							if h.Kind != "none" {
+								txt = append(txt, h.String())
+							}
+						}
+						r.Violation("replay-after-flood", fmt.Sprintf("after %v: %s", txt, why), map[string]any{"engine": "flood", "history_text": txt}, nil)
+					}
+				}
+			}
+		}
+	}
+	r.Add("states", int64(n))
+	r.Add("transitions", int64(n)*int64(floodN))
+	r.Set("flood_part", map[string]any{"histories": n, "requests_per_flood": floodN, "violations": vio})
 }
